@@ -9,7 +9,9 @@ from . import ir, rvref
 
 LABEL_NAMES = ['loop', 'L1', 'done', 'string_tab', 'include_me', 'x', '_start', 'e', 'error1', 'Main', 'l',
                'data_end', 'j_', 'li_', '__', 'a_b_c', 'pack_it', 'L', 'target9', 'here', 'there', 'far_away',
-               'isr', 'T_0', 'zero_', 'sp_', 'retn', 'aligned', 'Lx8', 'end']
+               'isr', 'T_0', 'zero_', 'sp_', 'retn', 'aligned', 'Lx8', 'end',
+               # names that are substrings of number spellings (0xa, 0b1, 1e..) or of constant names below
+               'a', 'b', 'f', 'FO', 'REG', 'BA', 'k', 'N', 'SI', 'Mas', 'big_', 'c']
 CONST_NAMES = ['K', 'FOO', 'BAR', 'RCU_BASE', 'k2', 'ADDR', 'Stringy', 'align_', 'X', 'N0', '_k', 'SIZE', 'Mask',
                'SHIFT', 'BIT', 'OFFSET', 'neg1', 'Z', 'W', 'REG_A', 'REG_B', 'tmp_reg', 'PTR', 'Q', 'big', 'c0']
 assert all(ir.name_ok(n) for n in LABEL_NAMES + CONST_NAMES)
